@@ -93,7 +93,10 @@ def detect(name, pids, tier="quick"):
     try:
         for pid in pids:
             t0 = time.time()
-            rc, out = sh("./run check %s --tier %s" % (pid, tier), cwd=VERIF, timeout=7200)
+            # (evidence of a run against a changed tree goes to a scratch directory: /verif/evidence only ever holds
+            #  runs against /repo as it is)
+            rc, out = sh("VERIF_EVIDENCE_DIR=/tmp/asynq-verif-seeded-evidence ./run check %s --tier %s" % (pid, tier),
+                         cwd=VERIF, timeout=7200)
             viol = [l for l in out.splitlines() if l.startswith("VIOLATION")]
             detail = [l for l in out.splitlines() if l.startswith("  ")][:3]
             results[pid] = {"exit": rc, "violations": len(viol), "first": detail, "wall_s": round(time.time() - t0),
